@@ -47,6 +47,9 @@ type Prog struct {
 	ByPath map[string]*packages.Package // every package incl. dependencies
 	SSA    *ssa.Program
 	SPkg   map[string]*ssa.Package
+
+	constGlobals map[*ssa.Global]*Term // see ConstGlobal
+	cgDone       bool
 }
 
 // ExpectedPackages is the number of packages `./...` must yield in the root
